@@ -129,8 +129,10 @@ class Peer(object):
                 key = (op.get('unit', 1), request_pdu(op))
                 self.ops.setdefault(key, []).append({'op': op, 'caller': ci, 'index': oi, 'attempts': 0})
         self.rx = []                # every frame received: (seq, raw, parsed or None)
-        self.last_reply = None      # last correct reply frame sent/constructed (for 'stale')
         self.unparsed = 0
+        self.sent_log = []          # (seq when scheduled, link index, nbytes)
+        self.current = {}
+        self.link = 0
 
     def on_frame(self, raw):
         seq = self.k.log('peer-rx', raw)
@@ -145,8 +147,10 @@ class Peer(object):
         ent = None
         for (u, p), lst in self.ops.items():
             if p == pdu and (unit is None or u == unit):
-                # the first not-yet-completed op with this content
-                ent = next((e for e in lst if not e.get('completed')), lst[-1])
+                # the op with this content that a caller is executing right now
+                # (the harness tells the peer), else the first not yet completed one
+                cur = [e for e in lst if self.current.get(e['caller']) == e['index']]
+                ent = cur[0] if cur else next((e for e in lst if not e.get('completed')), lst[-1])
                 break
         rec = {'seq': seq, 'raw': raw, 'ok': True, 'unit': unit, 'tid': tid, 'pid': pid, 'pdu': pdu,
                'op': (ent['caller'], ent['index']) if ent else None}
@@ -293,7 +297,10 @@ def run(scn, keep_log=False, real_server=None):
             ch = net.Channel(k, 'link%d' % len(state['channels']))
             state['channels'].append(ch)
 
+            link = len(state['channels']) - 1
+
             def send(delay, data):
+                peer_box['peer'].sent_log.append((k.seq, link, len(data)))
                 ch.ba.push(delay, bytes(data))
 
             def close(delay):
@@ -304,6 +311,7 @@ def run(scn, keep_log=False, real_server=None):
             peer = peer_box.get('peer')
             if peer is None:
                 peer = Peer(k, scn, framing, send, close, reset)
+                peer.current = current
                 peer_box['peer'] = peer
             else:
                 peer.send, peer.close, peer.reset = send, close, reset
@@ -330,7 +338,7 @@ def run(scn, keep_log=False, real_server=None):
                 state['real_server']['server'].process_request(ssock, ('sim-cli', 1000 + i))
                 return net.SimSocket(k, ch, 'a', name='cli-sock%d' % i)
             ch = new_stream_link()
-            return net.SimSocket(k, ch, 'a', name='cli-sock%d' % i)
+            return net.SimSocket(k, ch, 'a', name='cli-link%d' % (len(state['channels']) - 1))
 
         def socket_factory(fam, typ):
             import socket as rs
@@ -342,15 +350,17 @@ def run(scn, keep_log=False, real_server=None):
                     srv_addr = ('127.0.0.1', 502)
 
                     def send(delay, data):
+                        peer_box['peer'].sent_log.append((k.seq, 0, len(data)))
                         k.call_later(delay, lambda: dn.sendto(srv_addr, ('cli', 5000), bytes(data)), 'peer-dgram')
 
                     def nop(delay):
                         pass
                     peer = Peer(k, scn, framing, send, nop, nop)
+                    peer.current = current
                     peer_box['peer'] = peer
                     dn.endpoints[srv_addr] = lambda data, src: peer.on_frame(data)
                 state['connects'] += 1
-                return net.SimDatagramSocket(k, dn, ('cli', 5000), name='cli-udp')
+                return net.SimDatagramSocket(k, dn, ('cli', 5000), name='cli-link0')
             # unconnected stream socket (TLS path): channel is made at connect()
             return net.SimSocket(k, None, 'a', name='cli-tls')
 
@@ -371,7 +381,7 @@ def run(scn, keep_log=False, real_server=None):
                         state['channels'].append(ch)
                 else:
                     ch = new_stream_link()
-                sp = net.SimSerial(k, ch, 'a', timeout=timeout, name='cli-ser')
+                sp = net.SimSerial(k, ch, 'a', timeout=timeout, name='cli-link%d' % (len(state['channels']) - 1))
                 state.setdefault('ports', []).append(sp)
                 return sp
             if port == 'srv0':
@@ -396,6 +406,7 @@ def run(scn, keep_log=False, real_server=None):
         decodes = []
         client.framer.decoder = ClientDecoderProxy(client.framer.decoder, k, decodes)
         calls = []
+        current = {}
 
         def caller(ci, ops):
             def body():
@@ -403,6 +414,7 @@ def run(scn, keep_log=False, real_server=None):
                     rec = {'caller': ci, 'index': oi, 'invoke_seq': k.log('invoke', ci, oi), 't0': k.now,
                            'result': None, 'exc': None}
                     calls.append(rec)
+                    current[ci] = oi
                     try:
                         rec['result'] = call_op(client, op)
                     except Exception as ex:
